@@ -31,6 +31,7 @@ import (
 	"encoding/json"
 	"flag"
 	"fmt"
+	"github.com/golang/protobuf/proto"
 	"io"
 	"log"
 	"math/rand"
@@ -236,6 +237,26 @@ func (s *vrSys) createSession() (*vrSession, error) {
 		return nil, err
 	}
 	return &vrSession{id: robust.Id{Id: msg.Id.Id}, auth: msg.Data}, nil
+}
+
+// oldSession creates a session whose last activity lies two hours in the past (the CreateSession entry is
+// proposed with that timestamp, bypassing applyMessageWait which stamps entries with the local clock): the
+// expiry sweep picks it although it is still in use.
+func (s *vrSys) oldSession() *vrSession {
+	msg := &robust.Message{Type: robust.CreateSession, Data: fmt.Sprintf("auth%016x%016x", rand.Uint64(), rand.Uint64()),
+		UnixNano: time.Now().Add(-2 * time.Hour).UnixNano()}
+	b, err := proto.Marshal(msg.ProtoMessage())
+	if err != nil {
+		return nil
+	}
+	f := node.Apply(append([]byte{'p'}, b...), 10*time.Second)
+	if f.Error() != nil {
+		return nil
+	}
+	if e, ok := f.Response().(error); ok && e != nil {
+		return nil
+	}
+	return &vrSession{id: robust.Id{Id: robust.IdFromRaftIndex(f.Index())}, auth: msg.Data}
 }
 
 func (s *vrSys) deleteSession(sess *vrSession) {
@@ -644,9 +665,20 @@ func init() {
 
 	// ---- the expiry loop of main(): its body, on the current server
 	d["main.mainLoop"] = vrDriver{run: vrDirect(func(o vrObjs, s *vrSys, r *rand.Rand) {
+		// every other sweep finds an expired session that is posting at that very moment
+		done := make(chan struct{})
+		if idle := s.oldSession(); idle != nil && r.Intn(2) == 0 {
+			go func() {
+				defer close(done)
+				s.irc(idle, "PING :still here")
+			}()
+		} else {
+			close(done)
+		}
 		for _, msg := range o.irc.ExpireSessions() {
 			s.api.ApplyMessageWait(msg, 10*time.Second)
 		}
+		<-done
 	})}
 	vrAlias("main.mainLoop", "IRCServer.ExpireSessions")
 
